@@ -509,11 +509,35 @@ class Hist:
             self.env[x] = dict(type=et, mut=rng.random() < 0.5)   # mech: mutable; the property: immutable — both get exercised
         return True
 
+    def g_fncall(self, invalid):
+        """a statement whose right-hand side calls a user-defined function whose body fails (error value or caught
+        panic): the model sees an expression whose evaluation fails, `(fails)`; the store must be left unchanged"""
+        if not invalid or not getattr(self, "with_fns", False):
+            return False
+        rng = self.rng
+        call = rng.choice(["dec(0u64)", "idx(7u64)", "undef(1)", "idx(0u64)", "dec(dec(1u64))"])
+        form = rng.random()
+        muts = [n for n in self.defined() if self.env[n]["mut"]]
+        if form < 0.4 and self.undefined():
+            x = rng.choice(self.undefined()); mu = rng.random() < 0.5
+            self.emit("fncall", "%s%s := %s" % ("~" if mu else "", x, call), ["def", int(mu), q(x), ["fails"]], True)
+        elif form < 0.7 and muts:
+            x = rng.choice(muts)
+            self.emit("fncall", "%s = %s" % (x, call), ["asg", q(x), ["fails"]], True)
+        elif muts:
+            x = rng.choice(muts)
+            o, on = rng.choice([("+=", "add"), ("-=", "sub"), ("*=", "mul")])     # the model admits `/=` only with literal divisors
+            self.emit("fncall", "%s %s %s" % (x, o, call), ["op", q(x), on, ["fails"]], True)
+        else:
+            return False
+        return True
+
     def step(self):
         rng = self.rng
         invalid = rng.random() < self.p_invalid
         gens = [(self.g_define, 5 if len(self.env) < len(self.names) else 2), (self.g_assign, 4), (self.g_index, 3), (self.g_op, 4),
-                (self.g_field, 3), (self.g_tix, 2), (self.g_destr, 2 if self.prof["destr"] else 0)]
+                (self.g_field, 3), (self.g_tix, 2), (self.g_destr, 2 if self.prof["destr"] else 0),
+                (self.g_fncall, 3 if getattr(self, "with_fns", False) else 0)]
         if len(self.env) == 0:
             gens = [(self.g_define, 8), (self.g_destr, 1 if self.prof["destr"] else 0), (self.g_assign, 1)]
         for _ in range(12):
@@ -1044,7 +1068,16 @@ def bucket(n, edges):
     return ">%d" % edges[-1]
 
 
+# user-defined functions whose bodies fail for some arguments (integer underflow, index out of range, undefined name);
+# they are defined together with the first statement of a history (function definitions bind no variable)
+FNDEFS = ("dec(n<u64>) = r<u64> :=\n  r := n - 1u64.\n"
+          "idx(i<u64>) = r<f64> :=\n  w := [1 2 3]\n  r := w[i].\n"
+          "undef(x<f64>) = r<f64> :=\n  r := x + missingname.\n")
+
+
 def make_case(h, stream):
+    if getattr(h, "with_fns", False) and h.src and not h.src[0].startswith("dec(n<u64>)"):
+        h.src[0] = FNDEFS + h.src[0]
     n = len(h.src)
     tags = dict(stream=stream, length=bucket(n, [8, 16, 25]), invalid_pct=bucket(100 * h.invalid // max(1, n), [20, 40, 60, 100]))
     for k in sorted(set(h.kinds)):
@@ -1143,6 +1176,7 @@ def generate(tier, rng):
             prof = dict(barevar=rng.choice([0.0, 0.3]), varatom=rng.random() < 0.5, destr=rng.random() < 0.4, longcol=rng.random() < 0.5)
             stream = "random"
         h = Hist(rng, names, p_inv, prof)
+        h.with_fns = rng.random() < 0.25
         length = rng.randint(3, 25)
         for _ in range(length):
             h.step()
